@@ -21,6 +21,12 @@ type Explorer struct {
 	Points  int64
 	Capped  bool
 	MaxLen  int
+	// Shard/Shards split the schedule tree between processes: every shard runs the root
+	// execution (choice 0 everywhere) to learn its choice points, shard 0 alone evaluates it, and
+	// the subtree below the k-th child of the root belongs to shard k mod Shards. The union over
+	// all shards is exactly the unsharded exploration.
+	Shard, Shards int
+	OnSkip        func()
 	// BoundCompleted is the preemption bound fully explored (== Bound unless capped).
 }
 
@@ -61,8 +67,18 @@ func (e *Explorer) Explore(mk Factory) error {
 				return fmt.Errorf("replay divergence: choice %d", i)
 			}
 		}
-		after(res, tr)
+		isRoot := nd.prefix == nil
+		if isRoot && e.Shards > 1 && e.Shard != 0 {
+			e.Execs-- // evaluated and counted by shard 0
+			e.Points -= int64(res.Points)
+			if e.OnSkip != nil {
+				e.OnSkip() // e.g. drain the race log of the skipped execution
+			}
+		} else {
+			after(res, tr)
+		}
 		// Children, pushed in reverse so that the DFS visits low alternatives first.
+		child := 0
 		for i := len(tr.Choice) - 1; i >= len(nd.prefix); i-- {
 			for alt := tr.N[i] - 1; alt >= 1; alt-- {
 				c := nd.cost
@@ -70,6 +86,10 @@ func (e *Explorer) Explore(mk Factory) error {
 					c++
 				}
 				if e.Bound >= 0 && c > e.Bound {
+					continue
+				}
+				child++
+				if isRoot && e.Shards > 1 && child%e.Shards != e.Shard {
 					continue
 				}
 				p := make([]int, i+1)
